@@ -237,8 +237,22 @@ theorem C19_filter_history_independent (what : List Filt.What) (h1 h2 : List Fil
           exc := (Filt.model ⟨what, h1⟩).exc ++ (Filt.model ⟨what, h2⟩).exc } := by
   simp [Filt.model]
 
-example : Filt.includeF [.type "int"] ⟨"x", "p"⟩ "bool" = false ∧
-    Filt.includeF [.junk, .attr ⟨"x", "p"⟩] ⟨"x", "p"⟩ "bool" = true := by decide
+/-- **C19_include_name_not_alias**: a listed string selects a field by its NAME only — what the field's alias is
+    (the `__init__` parameter name: `x` for `_x`, or an explicit `alias=`) makes no difference to string entries. -/
+theorem C19_include_name_not_alias (names : List String) (a : Filt.AttrId) (al : String) (t : String) :
+    Filt.includeF (names.map Filt.What.name) { a with alias := al } t = names.contains a.name := by
+  rw [Filt.includeF_eq_any]
+  induction names with
+  | nil => rfl
+  | cons n ns ih =>
+    simp only [List.map_cons, List.any_cons, ih, List.contains_cons, Filt.selects]
+    rw [Bool.beq_comm]
+
+example : Filt.includeF [.name "x"] ⟨"_x", "x", "p"⟩ "int" = false ∧
+    Filt.includeF [.name "_x"] ⟨"_x", "x", "p"⟩ "int" = true := by decide
+
+example : Filt.includeF [.type "int"] ⟨"x", "x", "p"⟩ "bool" = false ∧
+    Filt.includeF [.junk, .attr ⟨"x", "x", "p"⟩] ⟨"x", "x", "p"⟩ "bool" = true := by decide
 
 /-! ## (d) cmp_using -/
 
@@ -254,19 +268,19 @@ open Cmp in
     `__ne__`, derived by total_ordering, or inherited from object) return NotImplemented, hence `==` is False,
     `!=` is True and the four orderings raise TypeError. -/
 theorem C19_cmp_using_notimpl (c : Cmp.Case) (x y : Opd) (hr : c.requireSameType = true)
-    (hx : x.cmpObj = true) (hy : y.cmpObj = true) (ht : y.ty ≠ x.ty) (op : Op) :
+    (hx : x.cmpObj = true) (hy : y.cmpObj = true) (ht : y.ty ≠ x.ty) (hid : x.id ≠ y.id) (op : Op) :
     dunder c op x y = .NI ∧
     oper c op x y = (match op with | .eq => .F | .ne => .T | _ => .typeError) :=
-  ⟨dunder_mismatch c x y hr hy ht op, oper_mismatch c x y hr hx hy ht op⟩
+  ⟨dunder_mismatch c x y hr hy ht hid op, oper_mismatch c x y hr hx hy ht hid op⟩
 
 open Cmp in
 /-- **C19_cmp_using_mismatch_never_calls**: same type required and payload types differ ⇒ evaluating any of the
     six methods or any of the six operators (reflected attempts included, derived methods included) calls no
     supplied function at all — so a function defined only for the intended type can never see the foreign payload. -/
 theorem C19_cmp_using_mismatch_never_calls (c : Cmp.Case) (x y : Opd) (hr : c.requireSameType = true)
-    (hx : x.cmpObj = true) (hy : y.cmpObj = true) (ht : y.ty ≠ x.ty) (op : Op) :
+    (hx : x.cmpObj = true) (hy : y.cmpObj = true) (ht : y.ty ≠ x.ty) (hid : x.id ≠ y.id) (op : Op) :
     dunderLog c op x y = [] ∧ operLog c op x y = [] :=
-  ⟨dunderLog_mismatch c x y hr hy ht op, operLog_mismatch c x y hr hx hy ht op⟩
+  ⟨dunderLog_mismatch c x y hr hy ht op, operLog_mismatch c x y hr hx hy ht hid op⟩
 
 open Cmp in
 /-- **C19_cmp_using_called_once**: a supplied function whose operands pass the comparability check is called
@@ -278,6 +292,31 @@ theorem C19_cmp_using_called_once (c : Cmp.Case) (op : Op) (r : Rel) (x y : Opd)
   rw [dunderLog_supplied c op r x y hs, methodLog_comparable0 c op x y h,
     dunder_supplied c op r x y hs, method_comparable0 c r x y h]
   exact ⟨rfl, rfl⟩
+
+open Cmp in
+/-- **C19_cmp_using_no_identity_shortcut**: the same wrapper object on both sides (`x == x`, `x != x`, `x <= x` …)
+    is compared like any other pair: the supplied `eq` is called exactly once on `(v, v)` and its answer is the
+    answer of `==` (negated for `!=`), also when it says False — there is no `other is self` fast path. -/
+theorem C19_cmp_using_no_identity_shortcut (c : Cmp.Case) (x : Opd) (r : Rel) (he : c.eq = some r)
+    (hx : x.cmpObj = true) :
+    dunderLog c .eq x x = [callEv .eq x x] ∧ dunder c .eq x x = r.eval x.val x.val ∧
+    (isBool (r.eval x.val x.val) = true →
+      oper c .eq x x = r.eval x.val x.val ∧ oper c .ne x x = (r.eval x.val x.val).not) := by
+  have hC : Comparable c x x := ⟨⟨hx, hx, fun _ => rfl⟩, fun _ => rfl⟩
+  have hs : slot c .eq = some r := by simpa [slot] using he
+  have hd : dunder c .eq x x = r.eval x.val x.val := by
+    rw [dunder_supplied c .eq r x x hs, method_comparable c r x x hC]
+  refine ⟨by rw [dunderLog_supplied c .eq r x x hs, methodLog_comparable0 c .eq x x hC.1], hd, ?_⟩
+  intro hb
+  have hne : dunder c .ne x x = (r.eval x.val x.val).not := by
+    simp only [dunder] at hd
+    simp only [dunder, dunderNe, he, hd]
+    revert hb; cases r.eval x.val x.val <;> simp [isBool, R.not]
+  refine ⟨by rw [oper_of_ne_NI c .eq x x (by rw [hd]; exact isBool_ne_NI hb), hd], ?_⟩
+  rw [oper_of_ne_NI c .ne x x (by rw [hne]; exact isBool_ne_NI (isBool_not hb)), hne]
+
+example : (Cmp.model (⟨some .ff, none, none, none, none, true, "K", 1, 1, .identical, false⟩ : Cmp.Case)).ops.take 2
+    = [.F, .T] := by decide
 
 open Cmp in
 /-- **C19_cmp_using_derived**: functions taken from the one order on the integers, `eq` among them and at least
